@@ -17,6 +17,12 @@ EXTRA = [
     "- item `{n}`", "1) `{n}`", "`{n}::{m}`", "{n}", "[{n}]", "[`{n}`]", "text }} {{ text", "/* `{n}` */",
 ]
 RAW_ANCHOR = "<a href=\"#{m}\">`{n}`</a>"      # a code span naming an item inside a doc-authored raw HTML anchor
+# reference-style links (full, collapsed, shortcut) whose text is a code span naming an item; the definition follows
+# after a blank doc line (a definition cannot interrupt a paragraph)
+REF_LINKS = [["see [`{n}`][spec-{m}] end", "", "[spec-{m}]: http://example.com/spec/{m}"],
+             ["[`{n}`][] is collapsed", "", "[`{n}`]: http://example.com/collapsed/{n}"],
+             ["shortcut [`{n}`] and `{m}`", "", "[`{n}`]: http://example.com/shortcut/{n}"],
+             ["[text `{n}` text][Spec {m}]", "", "[spec {m}]: <http://example.com/sp/{m}> \"title\""]]
 AUTOLINK_IN_LINK = "[`{n}` <http://example.com/{m}> `{m}`](#{n})"   # pulldown nests the autolink inside the inline link
 
 
@@ -54,9 +60,16 @@ def extend_docs(rng, wit, raw_anchor_prob=(1, 25)):
         m = re.match(r"^(\s*)///", line)
         if m and rng.chance(1, 2):
             for _ in range(rng.range(1, 2)):
-                tpl = rng.choice([RAW_ANCHOR, AUTOLINK_IN_LINK]) if rng.chance(*raw_anchor_prob) else rng.choice(EXTRA)
-                t = tpl.format(n=rng.choice(names), m=rng.choice(names))
-                out.append("%s///%s" % (m.group(1), (" " + t) if t else ""))
+                n_, m_ = rng.choice(names), rng.choice(names)
+                if rng.chance(1, 12):
+                    tpls = rng.choice(REF_LINKS)
+                elif rng.chance(*raw_anchor_prob):
+                    tpls = [rng.choice([RAW_ANCHOR, AUTOLINK_IN_LINK])]
+                else:
+                    tpls = [rng.choice(EXTRA)]
+                for tpl in tpls:
+                    t = tpl.format(n=n_, m=m_)
+                    out.append("%s///%s" % (m.group(1), (" " + t) if t else ""))
     return "\n".join(out)
 
 
@@ -70,22 +83,28 @@ def world(rng, raw_anchor_prob=(1, 25)):
 
 
 # --------------------------------------------------------------------------------------- synthetic markdown
+GEN_PREFIX = "#G_"
+RAW_HREF = "#q"
 KEYS = ["t", "foo", "a-b", "t::x", "w", "a:b/i", "f", "my-thing"]
 FRAG = [
     "`{k}`", "text", "[`{k}`](#{k})", "[a `{k}` b](http://x/{k})", "[a [`{k}`](#in) b](#out)", "![`{k}`](img.png)",
     "<http://x/{k}>", "[`{k}`][ref]", "[ref]", "*`{k}`*", "**`{k}` b**", "<b>`{k}`</b>", "<a href=\"#q\">`{k}`</a>",
     "<a id=\"{k}\"></a>`{k}`", "``{k}``", "`` `{k}` ``", "`{k} `", "\\`{k}\\`", "[`{k}`](<#a b>)", "[`{k}`](#x \"title `{k}`\")",
     "`{k}", "]", "[", "(#x)", "&amp;", "<", ">", "{{", "}}", "//", "[x](#y) `{k}` [z](#w)", "[![`{k}`](i.png)](#l)",
+    "[`{k}`][]", "[`{k}`]", "[a `{k}`][Ref]", "[`{k}`][nodef]", "[`{k}` <http://x/{k}> `{k}`][ref]",
     "[`{k}`", "`{k}`](#x)", "<span>`{k}`", "</a>`{k}`", "[^1]", "~~`{k}`~~", "| `{k}` | b |", "http://x/`{k}`",
 ]
 LINE_PREFIX = ["", "", "", "# ", "#### ", "- ", "    - ", "1. ", "> ", "    ", "<p>", "- <a id=\"r.f\"></a>", "[ref]: ", "[ref]: http://r/ "]
+REFDEFS = ["[ref]: http://r/", "[`t`]: http://r/t", "[`foo`]: http://r/foo", "[`a-b`]: <http://r/a b>", "[`f`]: http://r/f 'title'"]
 
 
 def markdown(rng):
     hk = [k for k in KEYS if rng.chance(1, 2)] or ["t"]
     if rng.chance(1, 8):
         hk.append("t ")
-    hrefs = [(k, "#" + re.sub(r"[^a-z0-9]+", "_", k)) for k in dict.fromkeys(hk)]
+    # targets of GENERATED links live in their own namespace (#G_...) so that the search leg can tell a generated
+    # <a href> from an authored one in the real HTML; raw HTML anchors of the fragments use #q exclusively
+    hrefs = [(k, GEN_PREFIX + re.sub(r"[^a-z0-9]+", "_", k)) for k in dict.fromkeys(hk)]
     lines = []
     for _ in range(rng.range(1, 8)):
         if rng.chance(1, 6):
@@ -96,4 +115,8 @@ def markdown(rng):
         lines.append(rng.choice(LINE_PREFIX) + body)
         if rng.chance(1, 3):
             lines.append("")
+    if rng.chance(1, 2):
+        lines.append("")
+        for _ in range(rng.range(1, 3)):
+            lines.append(rng.choice(REFDEFS))
     return hrefs, "\n".join(lines) + "\n"
